@@ -58,6 +58,7 @@ class Ctx:
         self.inside_fail = []    # C10: violations observed from inside file functions (real mode)
         self.written = {}        # path -> bytes written by generated functions (real mode)
         self.bf_seen = set()
+        self.hits = 0
         self.calls = []          # real mode: (path, status) for every build_file call issued
         self.user_exc_identity = []   # (raised obj id, propagated obj id) mismatches
         self.extra = {}
@@ -180,6 +181,10 @@ def run_block(ctx, b, inv, fname, args, stmts, obs, filename):
             obs.append([kind, path, a])
             ctx.record_trace(inv, kind, path, a)
         elif op == 'probe':
+            if ctx.mode == 'model':
+                mb = b.mb
+                ctx.extra.setdefault('probe_points', []).append(
+                    (inv, bool(mb.in_progress or mb.failed_outputs), bool(mb.stale_outputs or mb.stale_dirs)))
             for path in ctx.universe:
                 if path in ctx.masked:
                     continue
@@ -253,6 +258,8 @@ def run_call(ctx, b, s, obs):
                 post_bf_check(ctx, path, True, None, False)
         else:
             r = b.subbuild(fn, make_func(ctx, fn), *a, **kw)
+        if not (len(ctx.log) > n0 and ctx.log[n0]['fname'] == fn and ctx.log[n0]['path'] == path):
+            ctx.hits += 1        # returned without calling the function: served from the cache
         obs.append([op, fn, r])
     except Exception as e:
         if op == 'bf' and ctx.mode == 'real':
